@@ -192,56 +192,103 @@ func accessPathOf(c *Ctx, fn *ssa.Function, v ssa.Value) string {
 	return ""
 }
 
-func r17_1(c *Ctx, r *Report) {
-	const rule = "R17.1"
-	r.rule(rule, "The year is an affine function of the lunar year only, and the constructors invert it. Tao.GetYear is lunar.year - BIRTH_YEAR and NewTao builds lunar year = year + BIRTH_YEAR with BIRTH_YEAR = -2697; Foto.GetYear is lunar.year - DEAD_YEAR + 1 and NewFoto builds year + DEAD_YEAR - 1 with DEAD_YEAR = -543 (so +2697 and +544); computed as affine forms over (lunar year, parameters, never-written package constants).")
-	e := c.ranges()
-	for _, t := range []struct {
-		typ, global, ctor string
-		offset            int64
-	}{{"Tao", "calendar.BIRTH_YEAR", "calendar.NewTao", 2697}, {"Foto", "calendar.DEAD_YEAR", "calendar.NewFoto", 544}} {
-		get := c.Fn(r, rule, "calendar.(*"+t.typ+").GetYear")
-		ctor := c.Fn(r, rule, t.ctor)
-		if get == nil || ctor == nil {
-			continue
-		}
-		gv, okG := e.tabHull[t.global]
-		gk, isC := gv.isConst()
-		if !okG || !isC || e.mutable[t.global] {
-			r.bad(rule, t.global+" is a never-written constant", c.fnPos(get), "the epoch variable is not a never-written integer literal (undecided = fail)")
-			continue
-		}
-		var ga affineForm
-		for _, ins := range get.Blocks[len(get.Blocks)-1].Instrs {
-			if ret, ok := ins.(*ssa.Return); ok && len(ret.Results) == 1 {
-				ga = affineOf(c, get, ret.Results[0], 0)
-			}
-		}
-		single := len(get.Blocks) == 1
-		okGet := single && ga.ok && ga.coef["p0.lunar.year"] == 1 && len(nonZero(ga.coef)) <= 2
-		total := ga.k - ga.coef["g:"+t.global]*0
-		offs := ga.k + ga.coef["g:"+t.global]*gk
-		okGet = okGet && offs == t.offset
-		r.check(okGet, rule, fmt.Sprintf("calendar.(*%s).GetYear is the lunar year + %d", t.typ, t.offset), c.fnPos(get), fmt.Sprintf("affine form %s with %s = %d (single straight-line body: %v)", ga, t.global, gk, single))
-		_ = total
-		// constructor: first argument of NewLunar
-		var ca affineForm
-		found := false
-		for _, b := range ctor.Blocks {
-			for _, ins := range b.Instrs {
-				if call, ok := ins.(*ssa.Call); ok && call.Common().StaticCallee() != nil && fname(call.Common().StaticCallee()) == "calendar.NewLunar" {
-					ca = affineOf(c, ctor, call.Common().Args[0], 0)
-					found = true
-					var rest []string
-					for _, a := range call.Common().Args[1:] {
-						rest = append(rest, describeArg(c, ctor, a))
-					}
-					r.check(equalStrs(rest, []string{"p1", "p2", "p3", "p4", "p5"}), rule, t.ctor+" passes month, day and time through unchanged", c.fnPos(ctor), "arguments 2..6 of NewLunar: "+strings.Join(rest, ", "))
+// eraCtorRun follows a constructor of Tao/Foto with the given arguments; NewLunar and New<T>FromLunar are
+// read as records of what they are given.
+func eraCtorRun(c *Ctx, fn *ssa.Function, typ string, args []int64) (string, string) {
+	var leaf leafX
+	leaf = func(fr *evalFrame, v ssa.Value) (interface{}, bool) {
+		if fr.parent == nil {
+			for i, p := range fn.Params {
+				if v == ssa.Value(p) && i < len(args) {
+					return args[i], true
 				}
 			}
 		}
-		inv := found && ca.ok && ca.coef["param:year"] == 1 && ca.k+ca.coef["g:"+t.global]*gk == -t.offset
-		r.check(inv, rule, t.ctor+" inverts GetYear", c.fnPos(ctor), fmt.Sprintf("lunar year passed to NewLunar: %s", ca))
+		call, ok := v.(*ssa.Call)
+		if !ok || call.Common().StaticCallee() == nil {
+			return nil, false
+		}
+		switch fname(call.Common().StaticCallee()) {
+		case "calendar.NewLunar":
+			var parts []string
+			for _, a := range call.Common().Args {
+				x, ok := evalWith(fr, a, leaf)
+				if !ok {
+					return nil, false
+				}
+				parts = append(parts, fmt.Sprint(x))
+			}
+			return absPtr{"lunar(" + strings.Join(parts, ",") + ")", false}, true
+		case "calendar.New" + typ + "FromLunar":
+			x, ok := evalWith(fr, call.Common().Args[0], leaf)
+			if p, isP := x.(absPtr); ok && isP {
+				return absPtr{typ + " of " + p.tag, false}, true
+			}
+			return nil, false
+		}
+		return nil, false
+	}
+	ev := &evaluator{inline: inlineLibrary, leaf: leaf}
+	res, outcome := ev.run(fn, nil, nil, nil, nil)
+	if outcome != "return" || len(res) != 1 {
+		return "", outcome + " " + ev.fail
+	}
+	if p, ok := res[0].(absPtr); ok {
+		return p.tag, ""
+	}
+	return fmt.Sprint(res[0]), ""
+}
+
+func r17_1(c *Ctx, r *Report) {
+	const rule = "R17.1"
+	r.rule(rule, "The year is the lunar year plus the era's offset, and the constructors invert it. Followed by the evaluator (helpers inline, the never-written epoch variables folded): Tao.GetYear is the lunar year + 2697 and NewTao(y, m, d, h, mi, s) builds its date on NewLunar(y - 2697, m, d, h, mi, s) — month, day and time of day passed through in that order; Foto.GetYear is the lunar year + 544 and NewFoto builds on NewLunar(y - 544, ...); for a spread of years including the extremes of the range.")
+	for _, t := range []struct {
+		typ    string
+		offset int64
+	}{{"Tao", 2697}, {"Foto", 544}} {
+		get := c.Fn(r, rule, "calendar.(*"+t.typ+").GetYear")
+		ctor := c.Fn(r, rule, "calendar.New"+t.typ)
+		if get == nil || ctor == nil || len(get.Params) != 1 {
+			continue
+		}
+		var bad []string
+		years := []int64{-2697, -543, 0, 1, 1582, 2024, 9999}
+		for _, y := range years {
+			leaf := func(fr *evalFrame, v ssa.Value) (interface{}, bool) {
+				if _, f, ok := getterField(c, v); ok {
+					switch {
+					case f == "Lunar.year":
+						return y, true
+					case strings.HasSuffix(f, ".lunar"):
+						return absPtr{"lunar", false}, true
+					}
+				}
+				return nil, false
+			}
+			ev := &evaluator{inline: inlineLibrary, leaf: leaf}
+			res, outcome := ev.run(get, nil, nil, nil, nil)
+			if outcome != "return" || len(res) != 1 {
+				bad = append(bad, "not followed: "+outcome+" "+ev.fail)
+				break
+			}
+			if res[0] != interface{}(y+t.offset) {
+				bad = append(bad, fmt.Sprintf("lunar year %d: %v, expected %d", y, res[0], y+t.offset))
+			}
+		}
+		r.check(len(bad) == 0, rule, fmt.Sprintf("calendar.(*%s).GetYear is the lunar year + %d", t.typ, t.offset), c.fnPos(get), fmt.Sprintf("%d lunar years followed; deviations: %v", len(years), headList(bad, 3)))
+		bad = nil
+		for _, y := range years {
+			got, problem := eraCtorRun(c, ctor, t.typ, []int64{y + t.offset, -4, 29, 23, 58, 59})
+			want := fmt.Sprintf("%s of lunar(%d,-4,29,23,58,59)", t.typ, y)
+			if problem != "" {
+				bad = append(bad, "not followed: "+problem)
+				break
+			}
+			if got != want {
+				bad = append(bad, fmt.Sprintf("New%s(%d,-4,29,23,58,59) builds %s, expected %s", t.typ, y+t.offset, got, want))
+			}
+		}
+		r.check(len(bad) == 0, rule, "calendar.New"+t.typ+" inverts GetYear and passes month, day and time through unchanged", c.fnPos(ctor), fmt.Sprintf("%d years followed; deviations: %v", len(years), headList(bad, 3)))
 	}
 }
 
@@ -265,9 +312,22 @@ func r17_2(c *Ctx, r *Report) {
 			}
 			r.check(okk, rule, fname(fn)+" returns the lunar object's "+m, c.fnPos(fn), "pure delegation on the wrapped Lunar")
 		}
-		ymd := c.Fn(r, rule, "calendar.New"+typ+"FromYmd")
-		if ymd != nil {
-			checkDelegationArgs(c, r, rule, ymd, "calendar.New"+typ, []string{"p0", "p1", "p2", "0", "0", "0"})
+		ymd, full := c.Fn(r, rule, "calendar.New"+typ+"FromYmd"), c.FuncBy["calendar.New"+typ]
+		if ymd != nil && full != nil {
+			// the date-only constructor builds what the full one builds with a zero time of day (both followed)
+			var bad []string
+			for _, y := range []int64{1, 2024, 4721} {
+				got, p1 := eraCtorRun(c, ymd, typ, []int64{y, 12, 30})
+				want, p2 := eraCtorRun(c, full, typ, []int64{y, 12, 30, 0, 0, 0})
+				if p1 != "" || p2 != "" {
+					bad = append(bad, "not followed: "+p1+p2)
+					break
+				}
+				if got != want {
+					bad = append(bad, fmt.Sprintf("New%sFromYmd(%d,12,30) builds %s, New%s(%d,12,30,0,0,0) builds %s", typ, y, got, typ, y, want))
+				}
+			}
+			r.check(len(bad) == 0, rule, "calendar.New"+typ+"FromYmd builds what calendar.New"+typ+" builds at 00:00:00", c.fnPos(ymd), fmt.Sprintf("3 dates followed; deviations: %v", headList(bad, 2)))
 		}
 	}
 }
